@@ -1,5 +1,5 @@
-HOOK_COMMITS = ['261214f']
-FIX_COMMITS = ['6ab1b61', 'aa5da3f', '23893cd', 'b2f43bf', '6457cb8']
+HOOK_COMMITS = ['261214f', '7473a7b']
+FIX_COMMITS = ['6ab1b61', 'aa5da3f', '23893cd', 'b2f43bf', '6457cb8', '9d7243e', '99e9484', '2173ac6', '62af4cc', '26a6dc2', '11fc74a', '0f6d027']
 NOTES = ('Every check: proof gate (full coq build, forbidden-construct scan, Print Assumptions allow-list = empty) '
          '+ correspondence (extracted model vs real code on corpus + generated cases) + model-free oracle; '
          'known findings in known_findings.json. See DESIGN.md.')
@@ -133,3 +133,18 @@ CLAIMED['C04'] = dict(
     note='trusted: Coq kernel; hand-written models Packet/Views.v, Packet/IcmpExt.v (after the repairs 62af4cc, 26a6dc2, 11fc74a) tied to the code by differential execution; no axioms. '
          'The byte-level receive path of trippy-core net/ipv4.rs / ipv6.rs (recv_icmp_probe, extract_*) is being modelled separately; until it is merged that part is covered by the C09/C03 interface-level theorems only.',
     technique='Coq proof (totality lemmas per accessor over checked slicing; fuel-sufficiency) + differential testing + panic oracle with exhaustive field-value x buffer-length sweeps')
+
+CLAIMED['C16'] = dict(
+    text='Coq theorems: for each of the 44 layered options the value build_config works with is the command-line entry, else the file entry '
+         '(an absent section = no entry; the sections\' Default tables are proved to agree with the documented defaults), else the documented default, '
+         'and it is a function of the two entries of that option alone (non-interference); every non-derived option is carried unchanged into TrippyConfig; '
+         'the derived fields (protocol and address family with their shortcut flags, port direction, max_rounds, tui_max_addrs, effective max_flows) are '
+         'given with their exact dependency sets; theme colours and key bindings are layered item by item; validators are proved against independent statements; '
+         'a configuration accepted by the command-line layer passes every builder check except the initial-sequence bound (which the builder answers with BadConfig); '
+         'whatever the (repaired) builder accepts runs every loop iteration without a fault, for every history. '
+         'Correspondence: real clap/toml/build_config on rendered argv + TOML for every option x 4 states; the builder grid enumerated completely and executed.',
+    note='trusted: Coq kernel; hand-written models Tui/{ConfigTypes,Validate,Layer}.v and Core/Builder.v tied to the code by differential execution; no axioms. '
+         'Builder::build is modelled after docs/integration/C16_fix_1.patch (finding F9: first_ttl = 0, Tcp + FixedBoth, Udp/Classic + FixedBoth were accepted and panicked). '
+         'clap/toml/humantime/chrono_tz are exercised, not modelled; the no-fault theorem covers the strategy loop, the aggregator only by execution on the grid.',
+    technique='Coq proof (case analysis per option, list induction for item maps, inversion of the validation chain) + differential testing of the extracted model '
+              'against the real parsers and build_config + exhaustive execution of the builder grid')
